@@ -9,8 +9,10 @@ from lib import common as C
 from lib import histgen as G
 
 
-def run_sharded(binary, cmd, cases, extra=(), shards=None, timeout=900):
+def run_sharded(binary, cmd, cases, extra=(), shards=None, timeout=None):
     """run case texts through `binary cmd <file> extra...` in parallel shards; returns per-case output lists"""
+    # an implementation that stops answering is a finding, not a reason to wait: quick runs finish in seconds
+    timeout = timeout or (300 if os.environ.get("VERIF_TIER_EFFECTIVE", "quick") == "quick" else 1800)
     shards = shards or min(C.NCPU, max(1, len(cases) // 4))
     chunks = [cases[i::shards] for i in range(shards)]
 
